@@ -64,7 +64,8 @@ def h_solve(s, programs, hint_mode):
     elif hint_mode == "out" and prog["vars"]:
         hints = {"x0": prog["vars"][0][1] + 5, "nosuch": 1}
         s.goal("hint.out")
-    consistent = [t for t in sols if hints is None or hint_mode == "out" or t[0] == hints["x0"]]
+    # hints guide the search (docstring): they are not constraints, so INFEASIBLE is only right when the model has no solution at all
+    consistent = sols
     verdicts = {}
     shared = None
     for solver in ("auto", "dfs", "sat", "shared:auto", "shared:sat", "shared:dfs"):
@@ -102,8 +103,8 @@ def h_solve(s, programs, hint_mode):
         for nm, a in lst:
             why = check_assignment(prog, zs, dom, phi, a)
             s.check(why is None, tag + ".assignment_in_domain_and_satisfies_every_constraint", detail={"which": nm, "why": why})
-            if hints and hint_mode == "in" and why is None:
-                s.check(a["x0"] == hints["x0"], tag + ".in_domain_hint_is_respected", detail=a)
+            if hints and hint_mode == "in" and why is None and a["x0"] == hints["x0"]:
+                s.goal("hint.followed")  # (coverage only: the property does not promise that a hint is honoured)
         if res.solutions is not None:
             s.check(len(res.solutions) <= limit, tag + ".no_more_solutions_than_requested")
     s.check(len(set(verdicts.values())) <= 1, "back_ends_agree_on_satisfiability", detail={k: ("INFEASIBLE" if v else "has solution") for k, v in verdicts.items()})
